@@ -11,6 +11,7 @@ import (
 	"go/token"
 	"go/types"
 	"os"
+	"strconv"
 	"strings"
 
 	"github.com/chigopher/pathlib"
@@ -18,6 +19,7 @@ import (
 	"github.com/vektra/mockery/v3/config"
 	"github.com/vektra/mockery/v3/internal/stackerr"
 	"github.com/vektra/mockery/v3/template"
+	"github.com/vektra/mockery/v3/template_funcs"
 	"github.com/xeipuuv/gojsonschema"
 	"golang.org/x/mod/modfile"
 	"golang.org/x/tools/go/packages"
@@ -325,6 +327,20 @@ func (g *TemplateGenerator) typeParams(ctx context.Context, tparams *types.TypeP
 
 	tpd = make([]template.TypeParam, tparams.Len())
 
+	// The names of type parameters are printed through Exported(). A blank
+	// type parameter gets a generated name (the mock has to spell its own
+	// instantiation, `*Mock[V, T]`); that name must differ, in its printed
+	// form, from every declared name and from the names generated for other
+	// blank parameters ([_ any, _ any], [K comparable, _ any, V any]) and from
+	// a constraint that is spelled as a bare identifier ([_ Num] must not
+	// become [Num Num]).
+	taken := map[string]struct{}{}
+	for i := 0; i < len(tpd); i++ {
+		if name := tparams.At(i).Obj().Name(); name != "_" {
+			taken[template_funcs.Exported(name)] = struct{}{}
+		}
+	}
+
 	scope := g.registry.MethodScope()
 	for i := 0; i < len(tpd); i++ {
 		tp := tparams.At(i)
@@ -332,6 +348,17 @@ func (g *TemplateGenerator) typeParams(ctx context.Context, tparams *types.TypeP
 		v, err := scope.AddVar(ctx, typeParam, "", nil)
 		if err != nil {
 			return nil, err
+		}
+		if tp.Obj().Name() == "_" {
+			base := v.Name
+			for n := 1; ; n++ {
+				printed := template_funcs.Exported(v.Name)
+				if _, exists := taken[printed]; !exists && !scope.NameExists(printed) {
+					break
+				}
+				v.Name = base + strconv.Itoa(n)
+			}
+			taken[template_funcs.Exported(v.Name)] = struct{}{}
 		}
 		tpd[i] = template.TypeParam{
 			Param:      template.Param{Var: v},
